@@ -24,7 +24,7 @@ RULE = ('in-grammar: all atoms (numbers, signs, bools/None, string/bytes pieces 
 ASSUMPTIONS = ['CPython 3.12 tokenizer and eval as the reference semantics',
                'Python-legal texts outside the statement grammar (bare tuples, 1+2j, ..., -True, *-unpacking, set '
                'displays are near-misses) are in neither class unless listed']
-WITNESSES = ['concat_with_empty_piece', 'negative_number', 'one_tuple', 'trailing_comma', 'comment_in_brackets',
+WITNESSES = ['dict_repeated_key', 'concat_with_empty_piece', 'negative_number', 'one_tuple', 'trailing_comma', 'comment_in_brackets',
              'newline_in_brackets', 'nested_depth2', 'bytes_value', 'nearmiss_rejected', 'triple_quoted',
              'minus_before_ref_rejected', 'trailing_junk_rejected', 'mixed_str_bytes_rejected',
              'odd_line_separator_char']
@@ -410,6 +410,11 @@ def gen_cases(tier):
       d = depth_of(t)
       yield ('good', render(t, L), tags + (['nested_depth2'] if d >= 2 else []) +
              (['one_tuple'] if t[0] == 'tuple' and len(t[1]) == 1 else []))
+  # dict literals whose keys repeat or compare equal (1 == 1.0 == True): Python keeps the first key and the LAST value
+  for t in ["{'k': 1, 'k': 2}", "{1: 'int', 1.0: 'float', True: 'bool'}", "{'a': 1, 'b': 2, 'a': 3}", "{0: 'a', False: 'b'}",
+            "{'k': [1], 'k': (2,)}", "[{'k': 1, 'k': 2}]", "{'o': {'k': 1, 'k': None}}", "{(1, 2): 'a', (1, 2): 'b'}",
+            "{'': 1, '': 2}", "{b'k': 1, b'k': 0}", "{1: 1,\n 1: 2}", "{None: 1, None: 2}"]:
+    yield ('good', t, ['dict_repeated_key'])
   # parenthesised single value is the value itself
   for a in ['1', "'a'", '-2.5', '[1]', "'a' 'b'", '(1)', '((1,))', '( \n 1 \n )']:
     yield ('good', '(' + a + ')', [])
